@@ -757,7 +757,9 @@ def variants_ps(ps):
             else:
                 params.append([n, v])
         if changed:
-            out.append(dict(ps, params=params, via_add=True))
+            # (the calls made after unpacking were chosen for the object as built from `ps`: with add() instead of
+            #  create() a set can iterate in another order and another child is selected, so they are left out here)
+            out.append(dict(ps, params=params, via_add=True, post_ops=[]))
     return out
 
 
